@@ -798,7 +798,13 @@ func c17Render(o c17Obs, withEv bool) string {
 	return core.S("ok", parts...)
 }
 
-func c17Check(c *core.Ctx, cases []c17Case) []core.Outcome {
+func c17Check(c *core.Ctx, cases []c17Case) []core.Outcome { return c17CheckMode(c, cases, false) }
+
+// c17CheckKnown reports only the failures that fall into the suspected-defect zones of
+// design.d/C17.md (own leg, own failure budget: they must never crowd out anything else).
+func c17CheckKnown(c *core.Ctx, cases []c17Case) []core.Outcome { return c17CheckMode(c, cases, true) }
+
+func c17CheckMode(c *core.Ctx, cases []c17Case, knownOnly bool) []core.Outcome {
 	outs := make([]core.Outcome, len(cases))
 	lines := make([]string, len(cases))
 	obs := make([]c17Obs, len(cases))
@@ -822,6 +828,14 @@ func c17Check(c *core.Ctx, cases []c17Case) []core.Outcome {
 			}
 		}
 	}
+	if knownOnly {
+		for i := range outs {
+			if outs[i].Fail != nil && !c17KnownZone(outs[i].Fail.Key) {
+				outs[i].Fail = nil // reported by leg G
+			}
+		}
+		return outs
+	}
 	if os.Getenv("RV_NODRIVER") != "" { // development aid: oracle only
 		return outs
 	}
@@ -839,6 +853,7 @@ func c17Check(c *core.Ctx, cases []c17Case) []core.Outcome {
 		if outs[i].Fail != nil && !c17KnownZone(outs[i].Fail.Key) {
 			continue
 		}
+		outs[i].Fail = nil // suspected-defect zones are reported by leg Gk; the model is still compared
 		outs[i].Buckets = append(outs[i].Buckets, "model-compared")
 		withEv := obs[i].evNum != nil
 		got := c17Render(obs[i], withEv)
@@ -888,6 +903,11 @@ func init() {
 			Name: "G", Kind: "correspondence+oracle",
 			Rule:   "random lists of 1-15 group-opening events (unnamed / named from a pool of 1-4 names incl. digit-like and non-ASCII names / explicitly numbered, dense and sparse / non-capturing), random nesting, spellings (?<>, (?'', (?P<> (RE2), leading-zero numbers, occasional balancing group; x {default, MaintainCaptureOrder, ECMAScript, RE2, ExplicitCapture and pairs}; every group wraps its own letter. non-trivial = at least two capturing groups; distinct by (mode, pattern). Each case: cross-API oracle on the Go engine (lists aligned/ascending, lookups inverse, Groups() order, GroupByName/GroupByNumber texts, documented numbering rule, \\k<name> \\N (?P=name) references, ${name} $N replacement) and Lean Groups.assign vs GetGroupNumbers/GetGroupNames/Code.Caps/Capsize/per-group numbers",
 			Corpus: corpus, N: c.N(6000, 200000), Gen: c17Gen, Check: c17Check,
+		})
+		core.RunLeg(c, core.Leg[c17Case]{
+			Name: "Gk", Kind: "oracle",
+			Rule:   "same generator and oracle as leg G, reporting only the failures inside the suspected-defect zones of design.d/C17.md (sparse numbers: Groups()[i].Name, GroupByNumber of a non-number; explicit numbers under MaintainCaptureOrder; leading-zero numbers; non-canonical digit strings in GroupNumberFromName), so that they have their own failure budget",
+			Corpus: corpus, N: c.N(3000, 50000), Gen: c17Gen, Check: c17CheckKnown,
 		})
 	})
 }
